@@ -349,7 +349,7 @@ def parse_youtube_url(url, fix_common_mistakes=True):
     elif path.startswith("/user/"):
         splitted_path = pathsplit(path)
 
-        if len(splitted_path) < 2:
+        if len(splitted_path) < 2 or not splitted_path[1]:
             return None
 
         user = splitted_path[1]
@@ -364,7 +364,7 @@ def parse_youtube_url(url, fix_common_mistakes=True):
 
         splitted_path = pathsplit(path)
 
-        if len(splitted_path) < 2:
+        if len(splitted_path) < 2 or not splitted_path[1]:
             return None
 
         name = splitted_path[1]
@@ -374,7 +374,7 @@ def parse_youtube_url(url, fix_common_mistakes=True):
     elif path.startswith("/channel/"):
         splitted_path = pathsplit(path)
 
-        if len(splitted_path) < 2:
+        if len(splitted_path) < 2 or not splitted_path[1]:
             return None
 
         cid = splitted_path[1]
